@@ -74,6 +74,8 @@ var sqlByteTemplates = []string{
 	"@" + bb, "@@" + bb + "a", "`" + bb + "`", "'" + bb + "'", "\"" + bb + "\"", "0x" + bb, "1e" + bb, "1." + bb, "$" + bb + "$", "$a$" + bb + "$a$", "q'" + bb + "a" + bb + "'", "nq'" + bb + "x", "n" + bb + "'a'",
 	"/*" + bb + "*/1", "--" + bb + "\n1", "#" + bb + "\n1", "[" + bb + "]", "\\" + bb, "a" + bb + "b", "1" + bb + "1", "a." + bb, "x'" + bb + "'", "u&" + bb, "1" + bb + ";" + bb + "drop table t",
 	"1 or 1" + bb + "=1", "1 " + bb + "= 1 or", "<" + bb + ">", ":" + bb, "!" + bb, "|" + bb, "&" + bb, "*" + bb, "-" + bb + "-", "/" + bb + "*", "{" + bb + "a}", "user" + bb + "()",
+	// a character in front of a marker word inside a trailing comment (case mapping that changes the length)
+	"1 --" + bb + " sp_password", "1 --" + bb + "sp_password", "x' --" + bb + bb + " sp_password", "1 --sp_password" + bb, "1 #" + bb + bb + bb + "sp_password", "1 /*" + bb + "*/ union select 1", bb + " union select 1 --", "select" + bb + bb + " 1 from t",
 	// a comment / string / variable that ends the input right after the byte
 	"1#" + bb, "1--" + bb, "1 -- " + bb, "1/*" + bb, "'a'#" + bb, "a--" + bb, "1;" + bb, "1'" + bb, "@" + bb + "#", "1 or '" + bb, "1\"" + bb, "1`" + bb, "a@" + bb, "1 or @" + bb,
 }
